@@ -504,6 +504,8 @@ func runCase(ctx context.Context, out *vc.Out, caseID int, branch bool, nsubs in
 		b = 1
 	}
 	out.Emit(fmt.Sprintf("case %d %d", caseID, b), "ok")
+	// the generated operations of the case, so that a replay cut out of the op stream can be run again
+	out.Emit(fmt.Sprintf("gen %d %d %s", b, nsubs, strings.ReplaceAll(strings.Join(ops, "|"), " ", "_")), "ok")
 	if os.Getenv("VERIF_DEBUG_OPS") != "" {
 		fmt.Fprintf(os.Stderr, "CASE %d %d %d: %s\n", caseID, b, nsubs, strings.Join(ops, " | "))
 	}
@@ -526,9 +528,20 @@ func main() {
 	ctx := context.Background()
 	if f.Replay != "" {
 		lines := vc.ReadLines(f.Replay)
-		hdr := strings.Fields(lines[0])
-		ns, _ := strconv.Atoi(hdr[1])
-		runCase(ctx, out, 0, hdr[0] == "1", ns, lines[1:])
+		ran := false
+		for _, l := range lines {
+			// a case cut out of an op stream: its `gen` line carries the generated operations
+			if t := strings.Fields(l); len(t) == 4 && t[0] == "gen" {
+				ns, _ := strconv.Atoi(t[2])
+				runCase(ctx, out, 0, t[1] == "1", ns, strings.Split(strings.ReplaceAll(t[3], "_", " "), "|"))
+				ran = true
+			}
+		}
+		if !ran {
+			hdr := strings.Fields(lines[0])
+			ns, _ := strconv.Atoi(hdr[1])
+			runCase(ctx, out, 0, hdr[0] == "1", ns, lines[1:])
+		}
 		out.Close(nil)
 		return
 	}
